@@ -111,6 +111,73 @@ theorem comm_trans_holds : ∀ a b c : Fin p.d, p.commuting (p.blk a.val) = true
     p.keptE c.val b.val = true → p.keptE a.val c.val = true :=
   fun a b c hc hab hcb => keptE_trans a.val b.val c.val hc hab hcb
 
+theorem absGt_zero (hat : 0 ≤ p.atol) : Scalar.absGt (0 : K) p.atol = false := by
+  by_contra h
+  have h' : Thresholds.absGt (0 : K) p.atol = true := by
+    have : Scalar.absGt (0 : K) p.atol = true := by simpa using h
+    exact this
+  exact LawfulThresholds.absGt_ne (0 : K) p.atol hat h' rfl
+
+theorem sameLevel_self (hat : 0 ≤ p.atol) {a : Nat} (ha : a < p.d) : p.sameLevel a a = true :=
+  sameLevel_of_close ha ha rfl (by unfold equalEigs; rw [sub_self, absGt_zero hat]; rfl)
+
+/-- the clauses of `Accepted` about the masks, for the list form (or the absence) of `fully_diagonalize`: consequences of the model of the code's
+mask construction, not conditions on the input -/
+theorem elim_symm_tuple (hfd : ∀ l, p.fdEff ≠ .dict l) (a b : Fin p.d) (hblk : p.blk a.val = p.blk b.val) :
+    p.elimIn a.val b.val = p.elimIn b.val a.val := by
+  unfold elimIn elim
+  rw [hblk]
+  cases h : p.fdEff with
+  | none => rfl
+  | tuple l => simp only [sameLevel_symm a.val b.val]
+  | dict l => exact absurd h (hfd l)
+
+theorem diag_kept_tuple (hat : 0 ≤ p.atol) (hfd : ∀ l, p.fdEff ≠ .dict l) (a : Fin p.d) : p.keptE a.val a.val = true := by
+  unfold keptE elimIn elim
+  cases h : p.fdEff with
+  | none => simp
+  | tuple l => simp [sameLevel_self hat a.isLt]
+  | dict l => exact absurd h (hfd l)
+
+theorem gap_tuple (hfd : ∀ l, p.fdEff ≠ .dict l)
+    (hcross : ∀ a b : Fin p.d, p.blk a.val ≠ p.blk b.val → Scalar.absGt (p.energy a.val - p.energy b.val) p.atol = true)
+    (a b : Fin p.d) (hk : p.keptE a.val b.val = false) : Scalar.absGt (p.energy a.val - p.energy b.val) p.atol = true := by
+  by_cases hblk : p.blk a.val = p.blk b.val
+  · cases h : p.fdEff with
+    | none =>
+      exfalso
+      unfold keptE elimIn elim at hk
+      simp [h, hblk] at hk
+    | tuple l => exact gap_same_block_tuple a.isLt b.isLt hblk h hk
+    | dict l => exact absurd h (hfd l)
+  · exact hcross a b hblk
+
+variable (p) in
+/-- what has to be true of the *input* for the list form (or the absence) of `fully_diagonalize`: shapes, a non-negative tolerance, Hermitian terms, a
+diagonal `H_0`, and blocks whose energies are apart (for the solver's absolute test and for the relative test made at first use) -/
+structure InputOK : Prop where
+  wf : ∀ t ∈ p.terms, t.2.d = p.d
+  blocks_lt : ∀ a : Fin p.d, p.blk a.val < p.nblocks
+  atol_nonneg : 0 ≤ p.atol
+  herm : ∀ t ∈ p.terms, ∀ a b : Fin p.d, star (t.2.get b.val a.val) = t.2.get a.val b.val
+  h0_diag : ∀ t ∈ p.terms, t.1 = p.zeroOrder → ∀ a b : Fin p.d, a ≠ b → t.2.get a.val b.val = 0
+  blocks_apart : ∀ a b : Fin p.d, p.blk a.val ≠ p.blk b.val → Scalar.absGt (p.energy a.val - p.energy b.val) p.atol = true
+  no_shared : ∀ a b : Fin p.d, p.blk a.val ≠ p.blk b.val → Scalar.isClose (p.energy a.val) (p.energy b.val) = false
+  no_masks : ∀ l, p.fdEff ≠ .dict l
+
+/-- every such problem is accepted, whatever its levels inside the blocks: degenerate, close on the scale of `atol` in clusters or chains, exactly `atol` apart -/
+theorem InputOK.accepted (h : p.InputOK) : p.Accepted where
+  wf := h.wf
+  blocks_lt := h.blocks_lt
+  atol_nonneg := h.atol_nonneg
+  herm := h.herm
+  h0_diag := h.h0_diag
+  elim_symm := elim_symm_tuple h.no_masks
+  diag_kept := diag_kept_tuple h.atol_nonneg h.no_masks
+  gap := gap_tuple h.no_masks h.blocks_apart
+  comm_trans := comm_trans_holds
+  no_shared := h.no_shared
+
 variable (p) in
 /-- `Accepted` without its transitivity clause -/
 structure AcceptedCore : Prop where
@@ -119,7 +186,7 @@ structure AcceptedCore : Prop where
   atol_nonneg : 0 ≤ p.atol
   herm : ∀ t ∈ p.terms, ∀ a b : Fin p.d, star (t.2.get b.val a.val) = t.2.get a.val b.val
   h0_diag : ∀ t ∈ p.terms, t.1 = p.zeroOrder → ∀ a b : Fin p.d, a ≠ b → t.2.get a.val b.val = 0
-  elim_symm : ∀ a b : Fin p.d, p.elimIn a.val b.val = p.elimIn b.val a.val
+  elim_symm : ∀ a b : Fin p.d, p.blk a.val = p.blk b.val → p.elimIn a.val b.val = p.elimIn b.val a.val
   diag_kept : ∀ a : Fin p.d, p.keptE a.val a.val = true
   gap : ∀ a b : Fin p.d, p.keptE a.val b.val = false →
     Scalar.absGt (p.energy a.val - p.energy b.val) p.atol = true
@@ -161,6 +228,29 @@ theorem wchain_core : wchain.AcceptedCore where
   diag_kept := by decide +kernel
   gap := by decide +kernel
   no_shared := by decide +kernel
+
+/-- two blocks, `fully_diagonalize=[0]`: only the first block is fully diagonalised; its two levels are exactly `atol` apart (kept: D38) -/
+def wlist : Problem ℚ where
+  d := 3
+  blockOf := #[0, 0, 1]
+  nblocks := 2
+  nparams := 1
+  terms := [([0], ⟨3, #[1,0,0, 0,11,0, 0,0,400]⟩), ([1], ⟨3, #[1,2,3, 2,0,1, 3,1,-2]⟩)]
+  hermitian := true
+  fd := .tuple [0]
+  atol := 10
+
+theorem wlist_input : wlist.InputOK where
+  wf := by decide
+  blocks_lt := by decide
+  atol_nonneg := by decide +kernel
+  herm := by decide
+  h0_diag := by decide +kernel
+  blocks_apart := by decide +kernel
+  no_shared := by decide +kernel
+  no_masks := by intro l h; cases h
+
+example : wlist.keptE 0 1 = true ∧ wlist.keptE 0 2 = false := by decide +kernel
 
 /-- the ends of the chain are farther apart than `atol`, and yet kept together; the fourth level is eliminated against them -/
 example : wchain.equalEigs 0 2 = false ∧ wchain.keptE 0 2 = true ∧ wchain.keptE 0 3 = false := by decide +kernel
